@@ -222,6 +222,17 @@ def check(col: Collector, tier: str):
             col.add("C11.R5", f"{where}:{nm}", f"method-object-used:{mo}", ww(mo), f"method object `{mo}` does not occur in the code", f"{mod.rel}:{c.lineno}")
         decl = re.search(r"(auto|[A-Za-z_:<>]+)\s+" + re.escape(res or "\0") + r"\s*(=|;)", text) is not None
         col.add("C11.R5", f"{where}:{nm}", f"result-declared:{res}", decl, f"the code must declare the result name `{res}`", f"{mod.rel}:{c.lineno}")
+        # the declared return type is the type the code computes where the code names it: `auto result = x->getAttribute<T>(..)` yields a T,
+        # a collection return declares std::vector<cpp_return_type>
+        rt = const_str(vals.get("cpp_return_type"))
+        is_coll = isinstance(vals.get("cpp_return_is_collection"), ast.Constant) and vals["cpp_return_is_collection"].value is True
+        mm = re.search(re.escape(res or "\0") + r"\s*=\s*[^;]*?(?:getAttribute|static_cast|dynamic_cast|get)\s*<\s*(.+?)\s*>\s*\(", text)
+        if mm and rt:
+            want_t = f"std::vector<{rt}>" if is_coll else rt
+            got_t = mm.group(1).replace(" ", "")
+            col.add("C11.R5", f"{where}:{nm}", "declared-return-type-is-the-type-the-code-computes", got_t == want_t.replace(" ", ""),
+                    f"the code assigns `{res}` a {got_t}; the result variable is declared from cpp_return_type={rt!r}"
+                    f"{' (collection)' if is_coll else ''}, i.e. {want_t}", f"{mod.rel}:{c.lineno}")
         clash = [a for a in args_ if a == res or (mo and a == mo)]
         col.add("C11.R5", f"{where}:{nm}", "names-distinct", not clash and len(set(args_)) == len(args_), f"arguments {args_}, result {res}, method object {mo}", f"{mod.rel}:{c.lineno}")
     # the two jet specs are registered under the names they implement
@@ -283,10 +294,13 @@ def check(col: Collector, tier: str):
             "result_rep must be a lambda creating, per use, unique_name(spec.name) typed terminal(return type) - wrapped in a collection iff cpp_return_is_collection", bc.loc)
     from sa.props.c10 import check_default_vector_type, check_parse_type
     check_default_vector_type(col, "C11.R8", repo)
-    from sa.props._tr import check_code_value_per_call_site
+    from sa.props._tr import check_code_value_per_call_site, check_unique_names_per_use
     check_code_value_per_call_site(col, "C11.R8", repo)
+    check_unique_names_per_use(col, "C11.R8", repo)      # "a fresh variable" for every call
     # "its include files added": what the call site requested must reach the rendered source, each entry, unfiltered
     from sa.props._tr import import_obligations
+    import_obligations(col, "C11.R10", "c14", lambda o: o.detail == "info-key:body_include_files",
+                       "the include list handed to the templates must be the query's includes plus the injected ones, nothing removed")
     import_obligations(col, "C11.R10", "c14", lambda o: o.detail == "bare-unfiltered-slot" and "include_files" in o.construct,
                        "a function's include files are added to body_include_files: the template must render each one")
     # the declared return type text is decomposed by parse_type before it types the result variable
